@@ -150,6 +150,25 @@ def main():
         N = int(rng.randint(2, 6))
         kmax = 10 ** rng.uniform(-3, -1)
         Kin = rng.rand(N, N) * kmax * (rng.rand(N, N) < 0.8)
+        # spectra that a kinetic scheme typically has and a random matrix
+        # never does: sequential chains with equal rates (not
+        # diagonalisable), all rates equal (degenerate), absorbing states,
+        # two identical uncoupled blocks
+        shape = ("generic", "chain-equal", "all-equal", "absorbing",
+                 "two-blocks", "generic")[s % 6] if s < 36 else "generic"
+        if shape == "chain-equal":
+            Kin = numpy.zeros((N, N))
+            for n in range(N - 1):
+                Kin[n + 1, n] = kmax
+        elif shape == "all-equal":
+            Kin = numpy.full((N, N), kmax)
+        elif shape == "absorbing":
+            Kin[:, 0] = 0.0
+            Kin[0, 1:] = kmax
+        elif shape == "two-blocks" and N >= 4:
+            Kin = numpy.zeros((N, N))
+            Kin[1, 0] = Kin[3, 2] = kmax
+            Kin[0, 1] = Kin[2, 3] = kmax / 2
         rm = RateMatrix(dim=N)
         for n in range(N):
             for m in range(N):
@@ -222,10 +241,12 @@ def main():
             for i, t in enumerate(ts.data):
                 E = scipy.linalg.expm(K * (t - ta.data[0]))
                 worst = max(worst, float(numpy.abs(U[:, :, i] - E).max()))
-            smp = dict(N=N, regime=regime, mult=mult, shift=shift, err=worst)
+            smp = dict(N=N, regime=regime, mult=mult, shift=shift, err=worst,
+                       shape=shape)
             ck.case("propagation-matrix", (regime, s), sample=smp)
-            if worst > 1e-9:
-                ck.violation("propagation-matrix", "subaxis:" + regime, smp,
+            if not worst <= 1e-9:
+                ck.violation("propagation-matrix", "subaxis:%s:%s" % (
+                    regime, shape), smp,
                              dict(kind="propmatrix", K=K.tolist(), dt=dt,
                                   Nt=Nt, shift=shift, mult=mult, nsub=nsub))
 
